@@ -310,7 +310,30 @@ def rule_aggregation(ctx):
                 stats['groups'], floor=10, samples=stats['samples'])
 
 
+def rule_boundary_extent(ctx):
+    """R15.8: boundary conditions act on positions. The loops of reb_boundary_check range over the real particles
+    (r->N - r->N_var): variational particles are tangent vectors - wrapping them changes the variation, and the wrap
+    loops `while (x > L/2) x -= L` do not terminate once a component exceeds ~2^53 box lengths."""
+    from . import extents
+    tu = cfront.load_tu('boundary.c')
+    fn = tu.func('reb_boundary_check')
+    n = 0
+    samples = []
+    loops = extents.particle_loops(fn)
+    anchor(len(loops) >= 3, 'particle loops of reb_boundary_check (open, periodic, shear)')
+    for f, var, bound, subs in loops:
+        n += 1
+        where = 'src/boundary.c:%s reb_boundary_check' % line_of(f)
+        if bound != extents.REAL:
+            ctx.report('R15.8', 'boundary_check:extent:%s' % bound, where,
+                       'the boundary loop runs over %s, not over the real particles r->N - r->N_var: variational particles are wrapped (or removed) as if they were positions' % bound)
+        else:
+            samples.append('%s: loop over %s covers r->N - r->N_var' % (where, ','.join(subs)))
+    ctx.covered('R15.8', 'boundary check loops cover the real particles only', n, floor=3, samples=samples)
+
+
 def run(ctx):
+    rule_boundary_extent(ctx)
     rule_wrap(ctx)
     rule_ghostbox(ctx)
     rule_tree_geometry(ctx)
